@@ -366,3 +366,181 @@ func findCallTransitive(m *model.Model, p *packages.Package, root ast.Node, pred
 	})
 	return found
 }
+
+// resolveFuncBodies: the function bodies an expression used as a function value may denote inside the repository:
+// a literal, a local closure variable bound to literals, a function or method of the repository (method value).
+func resolveFuncBodies(m *model.Model, p *packages.Package, e ast.Expr) []struct {
+	Pkg  *packages.Package
+	Body *ast.BlockStmt
+} {
+	type ref = struct {
+		Pkg  *packages.Package
+		Body *ast.BlockStmt
+	}
+	info := p.TypesInfo
+	var out []ref
+	switch x := ast.Unparen(e).(type) {
+	case *ast.FuncLit:
+		out = append(out, ref{p, x.Body})
+	case *ast.Ident:
+		switch o := objOf(info, x).(type) {
+		case *types.Var:
+			for _, d := range m.Defs[o] {
+				if d.Expr != nil {
+					if l, ok := ast.Unparen(d.Expr).(*ast.FuncLit); ok {
+						out = append(out, ref{p, l.Body})
+					}
+				}
+			}
+		case *types.Func:
+			if d := m.Decls[o.Origin()]; d != nil && d.Decl.Body != nil {
+				out = append(out, ref{d.Pkg, d.Decl.Body})
+			}
+		}
+	case *ast.SelectorExpr:
+		if fo, ok := info.Uses[x.Sel].(*types.Func); ok {
+			if d := m.Decls[fo.Origin()]; d != nil && d.Decl.Body != nil {
+				out = append(out, ref{d.Pkg, d.Decl.Body})
+			}
+		}
+	case *ast.CallExpr:
+		// a conversion such as (func())(cancel) or Teardown(f)
+		if tv, ok := info.Types[x.Fun]; ok && tv.IsType() && len(x.Args) == 1 {
+			return resolveFuncBodies(m, p, x.Args[0])
+		}
+	}
+	return out
+}
+
+// inspectTransitive visits root and, through calls of repository functions, methods and local closures, the bodies they
+// run (depth levels). visit gets the package the node belongs to.
+func inspectTransitive(m *model.Model, p *packages.Package, root ast.Node, depth int, visit func(q *packages.Package, n ast.Node) bool) {
+	seen := map[ast.Node]bool{}
+	var walk func(q *packages.Package, root ast.Node, depth int)
+	walk = func(q *packages.Package, root ast.Node, depth int) {
+		if seen[root] {
+			return
+		}
+		seen[root] = true
+		ast.Inspect(root, func(n ast.Node) bool {
+			if n == nil {
+				return false
+			}
+			if !visit(q, n) {
+				return false
+			}
+			if call, ok := n.(*ast.CallExpr); ok && depth > 0 {
+				for _, b := range calleeBodies(m, q, call) {
+					walk(b.Pkg, b.Body, depth-1)
+				}
+			}
+			return true
+		})
+	}
+	walk(p, root, depth)
+}
+
+// recvFieldSel: e is (rooted at) a field selection on the receiver of the method that encloses it — any method of the
+// repository, so that code moved into a helper method of the same type is recognised with the helper's own receiver name.
+func recvFieldSel(m *model.Model, q *packages.Package, e ast.Expr) *ast.SelectorExpr {
+	chain := m.EnclosingFuncs(q, e)
+	fd := topDecl(chain)
+	if fd == nil || fd.Recv == nil {
+		return nil
+	}
+	rv := recvObj(q.TypesInfo, fd)
+	if rv == nil {
+		return nil
+	}
+	return fieldSelOf(q.TypesInfo, e, rv)
+}
+
+// subjectHelperKind classifies a call of a same-type helper method by what its body does, not by its name:
+// "broadcast" when it (transitively) sends a notification to a stored observer, "drop-all" when it removes observers
+// from the receiver's observer set (Delete on a receiver field, or clearing the single-observer field).
+func subjectHelperKind(m *model.Model, p *packages.Package, call *ast.CallExpr) string {
+	cl := model.Callee(p.TypesInfo, call)
+	if cl == nil {
+		return ""
+	}
+	d := m.Decls[cl]
+	if d == nil || d.Decl == nil || d.Decl.Body == nil || d.Decl.Recv == nil {
+		return ""
+	}
+	kind := ""
+	inspectTransitive(m, d.Pkg, d.Decl.Body, 2, func(q *packages.Package, n ast.Node) bool {
+		switch y := n.(type) {
+		case *ast.CallExpr:
+			if name, isObs := m.Obj.ObserverMethods[model.Callee(q.TypesInfo, y)]; isObs && notifKind(name) >= 0 {
+				if sel, ok := ast.Unparen(y.Fun).(*ast.SelectorExpr); ok {
+					// not a call on the receiver itself (s.NextWithContext delegating to a sibling method)
+					if id, ok := ast.Unparen(sel.X).(*ast.Ident); !ok || recvFieldSel(m, q, sel.X) != nil || !isReceiverIdent(m, q, id) {
+						kind = "broadcast"
+					}
+				}
+			}
+			if sel, ok := ast.Unparen(y.Fun).(*ast.SelectorExpr); ok && sel.Sel.Name == "Delete" && recvFieldSel(m, q, sel.X) != nil && kind == "" {
+				kind = "drop-all"
+			}
+		case *ast.AssignStmt:
+			for i, l := range y.Lhs {
+				if fs := recvFieldSel(m, q, l); fs != nil && fs.Sel.Name == "observer" && i < len(y.Rhs) && kind == "" {
+					if id, ok := ast.Unparen(y.Rhs[i]).(*ast.Ident); ok {
+						if _, isNil := q.TypesInfo.Uses[id].(*types.Nil); isNil {
+							kind = "drop-all"
+						}
+					}
+				}
+			}
+		}
+		return true
+	})
+	return kind
+}
+
+func isReceiverIdent(m *model.Model, q *packages.Package, id *ast.Ident) bool {
+	fd := topDecl(m.EnclosingFuncs(q, id))
+	if fd == nil || fd.Recv == nil {
+		return false
+	}
+	rv := recvObj(q.TypesInfo, fd)
+	return rv != nil && objOf(q.TypesInfo, id) == types.Object(rv)
+}
+
+// exprThroughInlining: an expression found in a helper that the model inlined (stack = the call chain from the subscribe
+// closure) is rewritten in the caller's terms: an identifier that names a parameter of a helper on the stack becomes the
+// argument passed for it. Returns the expression and the package whose types.Info describes it.
+func exprThroughInlining(m *model.Model, p *packages.Package, e ast.Expr, stack []*ast.CallExpr) (ast.Expr, *packages.Package) {
+	cur, curPkg := e, p
+	for i := len(stack) - 1; i >= 0; i-- {
+		id, ok := ast.Unparen(cur).(*ast.Ident)
+		if !ok {
+			break
+		}
+		v, ok := objOf(curPkg.TypesInfo, id).(*types.Var)
+		if !ok {
+			break
+		}
+		call := stack[i]
+		var cp *packages.Package
+		for _, pk := range m.Pkgs {
+			if _, ok := pk.TypesInfo.Types[call.Fun]; ok {
+				cp = pk
+				break
+			}
+		}
+		if cp == nil {
+			continue
+		}
+		d := m.Decls[model.Callee(cp.TypesInfo, call)]
+		if d == nil {
+			continue
+		}
+		for j, pv := range model.FlattenParams(d.Pkg.TypesInfo, d.Decl.Type.Params) {
+			if pv == v && j < len(call.Args) {
+				cur, curPkg = call.Args[j], cp
+			}
+		}
+	}
+	return cur, curPkg
+}
